@@ -126,8 +126,21 @@ class _MetaPyTree(type):
         # `PyTree[PyTree[...], ...]`, in which case that mode must be left switched on.
         already_flattening = get_treeflatten_memo()
         set_treeflatten_memo()
+        pytree_memo_bak = pytree_memo.copy()
+
+        def is_leaf(x):
+            # Looking for the leaves must not bind anything: a structured `PyTree`
+            # inside our leaf type would otherwise keep the structure of whichever
+            # node it was tried on first, leaf or not.
+            try:
+                return is_flatten_leaftype(x)
+            finally:
+                if pytree_memo != pytree_memo_bak:
+                    pytree_memo.clear()
+                    pytree_memo.update(pytree_memo_bak)
+
         try:
-            leaves, structure = jtu.tree_flatten(obj, is_leaf=is_flatten_leaftype)
+            leaves, structure = jtu.tree_flatten(obj, is_leaf=is_leaf)
         finally:
             if not already_flattening:
                 clear_treeflatten_memo()
